@@ -435,7 +435,11 @@ def operand_sets(shape):
     # the same names and the same set of monomials as `a`, but the terms STORED in another order (as monomial / symbols / direct
     # construction leave them)
     u = tagged(shape, 70, ("q0", "q1"), variant="unsorted+T" if len(shape) >= 2 else "unsorted")
-    return [[a, d], [a, b], [a, u], [u, a], [a, b, c]]
+    # operands of different coefficient dtypes (fractional values, so that a cast to the other operand's dtype shows)
+    n_ = int(numpy.prod(shape)) if shape else 1
+    fl = spec(("q0", "q1"), shape, [((1, 0), [0.5 * (i + 1) for i in range(n_)]), ((0, 0), [0.25 * (i % 3) for i in range(n_)]), ((0, 2), [-1.5 * (i % 2) for i in range(n_)])], "f8")
+    cx = spec(("q1",), shape, [((1,), [(0.5 + 1j) * (i + 1) for i in range(n_)]), ((0,), [1j * (i % 2) for i in range(n_)])], "c16")
+    return [[a, d], [a, b], [a, u], [u, a], [a, fl], [fl, a], [fl, cx], [a, b, c]]
 
 
 def run_multi(case, R):
@@ -448,6 +452,7 @@ def run_multi(case, R):
         ms = [model_of(s) for s in sps]
         allnames = None
         tg = tags + ["names=" + ("same" if len({tuple(s["n"]) for s in sps}) == 1 else "differ")]
+        rdt = numpy.result_type(*[numpy.dtype(s["d"]) for s in sps])
         joins = []
         for ax in range(-nd, nd):
             joins.append((f"concatenate axis={ax}", "concatenate", lambda f, xs, a=ax: f(xs, axis=a)))
@@ -464,7 +469,7 @@ def run_multi(case, R):
             for spelling, mod in (("numpoly", numpoly), ("numpy", numpy)):
                 judge_call(R, f"{label} of {[tuple(s['n']) for s in sps]} shape {shape}", fname, spelling,
                            lambda: g(getf(mod, fname), ps), lambda: vmap_multi(lambda cs: g(getf(numpy, fname), cs), ms),
-                           tg, allnames, "i8", None, allow_superset=True)
+                           tg, allnames, rdt if fname not in ("broadcast_arrays", "atleast_2d") else (rdt if len({s_["d"] for s_ in sps}) == 1 else None), None, allow_superset=True)
         # the sequence of operands in other containers: a tuple, and one polynomial array whose leading axis enumerates them
         stacked_m = vmap_multi(lambda cs: numpy.stack(cs, axis=0), ms)
         stacked_p = build_checked(spec_of_model(stacked_m, names=sorted(stacked_m.names(), key=name_index) or ["q0"]))
@@ -474,10 +479,10 @@ def run_multi(case, R):
             for spelling, mod in (("numpoly", numpoly), ("numpy", numpy)):
                 judge_call(R, f"{label} of a tuple {[tuple(s['n']) for s in sps]} shape {shape}", fname, spelling,
                            lambda: g(getf(mod, fname), tuple(ps)), lambda: vmap_multi(lambda cs: g(getf(numpy, fname), cs), ms),
-                           tg + ["container=tuple"], allnames, "i8", None, allow_superset=True)
+                           tg + ["container=tuple"], allnames, rdt, None, allow_superset=True)
                 judge_call(R, f"{label} of one array {stacked_p.shape} {[tuple(s['n']) for s in sps]}", fname, spelling,
                            lambda: g(getf(mod, fname), stacked_p), lambda: stacked_m.map(lambda c: g(getf(numpy, fname), c)),
-                           tg + ["container=ndpoly"], allnames, "i8", None, allow_superset=True)
+                           tg + ["container=ndpoly"], allnames, rdt, None, allow_superset=True)
         # broadcast_arrays with genuinely different shapes
         if nd >= 1:
             small = tagged(shape[-1:], 30, ("q0", "q2"))
@@ -491,7 +496,7 @@ def run_multi(case, R):
                                lambda: [v.map(lambda c, i=i: numpy.broadcast_arrays(*[numpy.empty(w.shape) if j != i else c
                                                                                      for j, w in enumerate(vs)])[i])
                                         for i, v in enumerate(vs)],
-                               tg, None, "i8", None, allow_superset=True)
+                               tg, None, "i8" if sps[0]["d"] == "i8" else None, None, allow_superset=True)
         # where: every boolean mask for small sizes, broadcast masks otherwise
         a, b = ps[0], ps[1]
         ma, mb = ms[0], ms[1]
@@ -512,11 +517,11 @@ def run_multi(case, R):
                 judge_call(R, f"where mask={mask.tolist()} shape {shape}", "where", spelling,
                            lambda: mod.where(mask, a, b),
                            lambda: vmap_multi(lambda cs: numpy.where(mask, cs[0], cs[1]), [ma, mb]),
-                           tg, None, "i8", None, allow_superset=True)
+                           tg, None, rdt, None, allow_superset=True)
             judge_call(R, f"where mask, poly, number shape {shape}", "where", "numpoly",
                        lambda: numpoly.where(mask, a, 5), lambda: vmap_multi(lambda cs: numpy.where(mask, cs[0], cs[1]),
                                                                              [ma, V.const(5)]),
-                       tg, None, "i8", None, allow_superset=True)
+                       tg, None, numpy.dtype(sps[0]["d"]), None, allow_superset=True)
         if len(sps) == 3:
             break
     # choose: choices stacked along axis 0
